@@ -34,6 +34,8 @@ func main() {
 		os.Exit(cmdCheck(os.Args[2:]))
 	case "list":
 		os.Exit(cmdList(os.Args[2:]))
+	case "names":
+		os.Exit(cmdNames(os.Args[2:]))
 	default:
 		fmt.Fprintln(os.Stderr, "unknown command", os.Args[1])
 		os.Exit(2)
@@ -71,6 +73,7 @@ func cmdCheck(args []string) int {
 	keep := fs.Bool("keep", false, "keep all generated .smt2 files")
 	verbose := fs.Bool("v", false, "verbose")
 	noReplay := fs.Bool("noreplay", false, "do not try to replay counterexamples")
+	namesPath := fs.String("names", "/verif/names.json", "recorded names of the functions under contract")
 	fs.Parse(args)
 	if *prop == "" {
 		fmt.Fprintln(os.Stderr, "-prop required")
@@ -87,6 +90,7 @@ func cmdCheck(args []string) int {
 		fmt.Fprintln(os.Stderr, "load error:", err)
 		return reportLoadFailure(*prop, *tier, seed, *evidence, *replays, err, t0)
 	}
+	p.Names = loadNames(*namesPath)
 	loadSecs := time.Since(t0).Seconds()
 	var reps []*FuncReport
 	for _, k := range p.Contracts.SortedKeys() {
